@@ -151,19 +151,42 @@ REALIZE: dict = {}
 ENCODE: list = []
 
 
+#: per area plug-in: its own CALLS / REALIZE / ENCODE (an area's value shapes are its own: two areas may realise the
+#: same class name differently, e.g. a dependency with and without a version)
+AREAS: dict = {}
+OWNER: dict = {}
+
+
 def _load_plugins():
     import importlib
     import os
+    global CALLS, REALIZE, ENCODE
     if getattr(_load_plugins, "done", False):
         return
     _load_plugins.done = True
     here = os.path.dirname(os.path.abspath(__file__))
+    all_calls, all_real, all_enc = {}, {}, []
     for fn in sorted(os.listdir(here)):
         if fn.startswith("ops_src_") and fn.endswith(".py"):
+            CALLS, REALIZE, ENCODE = {}, {}, []       # what this plug-in registers goes here
             try:
-                importlib.import_module(fn[:-3])
+                import sys
+                if fn[:-3] in sys.modules:
+                    # already imported by the op loader of ops.py: run it again so that it registers into the fresh tables
+                    importlib.reload(sys.modules[fn[:-3]])
+                else:
+                    importlib.import_module(fn[:-3])
             except Exception:  # noqa: BLE001  (its functions then answer `unsupported`)
-                pass
+                continue
+            AREAS[fn[:-3]] = (CALLS, REALIZE, ENCODE)
+            for f in CALLS:
+                OWNER[f] = fn[:-3]
+            all_calls.update(CALLS)
+            for k, v in REALIZE.items():
+                all_real.setdefault(k, v)
+            all_enc += ENCODE
+    # outside a `src` line of a particular area (the areas' own ops): everything, first registration wins
+    CALLS, REALIZE, ENCODE = all_calls, all_real, all_enc
 
 
 def _call(f: str, a: list):
@@ -205,7 +228,21 @@ def _call(f: str, a: list):
 
 @op("src")
 def _src(t: Toks) -> str:
+    global REALIZE, ENCODE
+    _load_plugins()
     f = t.next()
+    saved = (REALIZE, ENCODE)
+    if f in OWNER:
+        _, REALIZE, ENCODE = AREAS[OWNER[f]]
+    else:
+        REALIZE, ENCODE = {}, []          # the functions of the core: the built-in value shapes only
+    try:
+        return _src1(f, t)
+    finally:
+        REALIZE, ENCODE = saved
+
+
+def _src1(f: str, t: Toks) -> str:
     assert t.next() == "["
     a = []
     while t.peek() != "]":
